@@ -63,6 +63,32 @@ def run_atomdec(sx, cfg, env):
     sx.observe("val", v)
 
 
+def run_compdec(sx, cfg, env):
+    """arbitrary bytes through the nested descriptions (structures, fields, multiplexer, tables,
+    DTC, length keys)"""
+    from odxtools.exceptions import DecodeError
+    import warnings
+    obj = env["obj"]
+    msg = sx.bytes("msg", cfg["mlen"])
+    try:
+        with warnings.catch_warnings():
+            warnings.simplefilter("ignore")
+            res = obj.decode(msg)
+    except DecodeError:
+        sx.cover("decode-error")
+        sx.observe("outcome", "DecodeError")
+        sx.require(True, "returns-or-decode-error")
+        return
+    except Exception as e:  # noqa: BLE001
+        sx.observe("outcome", "foreign:" + type(e).__name__)
+        sx.fail("only-decode-error-escapes")
+        return
+    sx.cover("returned")
+    sx.require(True, "returns-or-decode-error")
+    sx.observe("outcome", "returned")
+    sx.observe("keys", sorted(res.keys()))
+
+
 def build_somersault(cfg):
     import odxtools
     import odxtools.isotp_state_machine  # noqa
@@ -110,16 +136,27 @@ HARNESSES = {
                 "must_cover": ["returned", "decode-error"],
                 "limits": {"quick": explore.Limits(max_paths=5000, wall_s=200),
                            "thorough": explore.Limits(max_paths=50000, wall_s=900)}},
+    "compdec": {"build": None, "run": run_compdec, "width": 80,
+                "must_cover": ["returned", "decode-error"],
+                "limits": {"quick": explore.Limits(max_paths=20000, wall_s=300),
+                           "thorough": explore.Limits(max_paths=100000, wall_s=1200)}},
     "somersault": {"build": build_somersault, "run": run_somersault, "width": 80,
                    "must_cover": ["returned", "decode-error"],
                    "limits": {"quick": explore.Limits(max_paths=20000, wall_s=600),
                               "thorough": explore.Limits(max_paths=200000, wall_s=3000)}},
 }
 STUBS = cc.STUBS
+from harness import composite as _cp  # noqa: E402
+HARNESSES["compdec"]["build"] = _cp.build_composite
 
 
 def configs(tier, seed):
     out = []
+    for what, table in (("request", _cp.COMPOSITES), ("response", _cp.RESPONSES)):
+        for name in table:
+            for n in range(0, (7 if tier == "quick" else 10)):
+                out.append({"id": f"compdec/{what}/{name}/len{n}", "harness": "compdec", "what": what,
+                            "name": name, "mlen": n, "build": {"what": what, "name": name}})
     seen = set()
     for a in cc.atoms(tier, seed):
         b = {k: v for k, v in a.items() if k not in ("vlen", "sidx")}
